@@ -32,6 +32,13 @@ type Val struct {
 	CLen    int
 	HasCLen bool
 	From    *Addr // address the value was loaded from (provenance, for guarded_by)
+	Sub     *SubObj // pointer to a nested struct field: which field of which object
+}
+
+type SubObj struct {
+	Base   string // ref term of the enclosing object
+	Struct string // struct sort of the enclosing object
+	Field  int
 }
 
 func (v *Val) String() string {
